@@ -501,6 +501,24 @@ def check_prune(ctx, case, d):
         return [('violation', 'prune-accepts-undefined-reference-timeslice', [tproj, t0proj])]
     if pr.T != T or pr.N != Ntrunc:
         return [('violation', 'prune-wrong-shape', [pr.T, pr.N])]
+    # the documented `basematrix` argument: the basis may be taken from another correlator C; with C = 2 G the
+    # eigenvectors are those of G, normalised to v^T C(t0) v = 1, hence 1/sqrt(2) times the default ones
+    try:
+        with warnings.catch_warnings():
+            warnings.simplefilter('ignore')
+            pr2 = corr.prune(Ntrunc, tproj=tproj, t0proj=t0proj, basematrix=2.0 * corr)
+        for t in range(T):
+            if (pr2.content[t] is None) != (pr.content[t] is None):
+                return [('violation', 'prune-basematrix-undefined-pattern', t)]
+            if pr.content[t] is None:
+                continue
+            A_ = np.vectorize(lambda o: o.value)(np.asarray(pr.content[t], dtype=object).reshape(Ntrunc, Ntrunc))
+            B_ = np.vectorize(lambda o: o.value)(np.asarray(pr2.content[t], dtype=object).reshape(Ntrunc, Ntrunc))
+            # the basis vectors are fixed up to sign: compare the symmetric part up to the signs of rows / columns
+            if np.max(np.abs(0.5 * np.abs(0.5 * (A_ + A_.T)) - np.abs(0.5 * (B_ + B_.T)))) > 1e-7 * max(1.0, float(np.max(np.abs(A_)))):
+                return [('violation', 'prune-basematrix-differs', 't=%d' % t)]
+    except Exception as e:
+        return [('violation', 'prune-basematrix-raises', repr(e)[:200])]
     order = list(np.argsort(-lam_exact(d, t0proj, tproj), kind='stable'))
     f = d['f']
     for t in range(T):
